@@ -121,6 +121,7 @@ def _worker(args):
         out["runs"] += 1
         out["seeds_done"].append(seed)
         metas = res if isinstance(res, list) else [res]
+        out["execs"] = out.get("execs", 0) + len(metas)
         for r in metas:
             if r.meta.get("harness_error"):
                 out["harness_errors"].append((seed, r.meta["harness_error"][:300], ""))
@@ -524,6 +525,7 @@ def run_check(prop, tier="quick", seed=1, workers=None, wall=None, max_runs=None
                 print(f"HARNESS-ERROR worker died: {type(e).__name__}: {e}")
                 return 2
             agg["runs"] += out["runs"]
+            agg["execs"] = agg.get("execs", 0) + out.get("execs", 0)
             agg["aborts"] += out["aborts"]
             agg["harness_errors"].extend(out["harness_errors"])
             agg["violations"].extend(out["violations"])
@@ -582,7 +584,7 @@ def run_check(prop, tier="quick", seed=1, workers=None, wall=None, max_runs=None
             print(f"KNOWN-FINDING: property={prop} {e['what']} (rule={e['rule']}, seen {known_seen[e['id']]}x this run, replay={e.get('replay')})")
     write_evidence(prop, tier, seed, reg, agg, wall_s, new_violations, known_seen)
     rate = agg["runs"] / max(wall_s, 1e-9) * 3600
-    print(f"{prop} {tier}: runs={agg['runs']} distinct_nontrivial={len(agg['hashes'])} vtime_s={agg['vtime_us']/1e6:.1f} "
+    print(f"{prop} {tier}: scenarios={agg['runs']} executions={agg.get('execs', 0)} distinct_nontrivial={len(agg['hashes'])} vtime_s={agg['vtime_us']/1e6:.1f} "
           f"runs/h={rate:.0f} violations={new_violations} known_seen={sum(known_seen.values())} wall={wall_s:.1f}s")
     return exit_code
 
@@ -590,7 +592,8 @@ def run_check(prop, tier="quick", seed=1, workers=None, wall=None, max_runs=None
 def write_evidence(prop, tier, seed, reg, agg, wall_s, violations, known_seen):
     os.makedirs(EVIDENCE, exist_ok=True)
     cov = {
-        "evaluations": agg["runs"],
+        "evaluations": agg.get("execs", agg["runs"]),
+        "scenarios": agg["runs"],
         "distinct_nontrivial": len(agg["hashes"]),
         "rule": reg.get("rule", ""),
         "samples": agg["samples"] or [{"note": "no sample captured"}],
